@@ -395,6 +395,8 @@ pub struct ExportDeclaration {
     pub source: Option<StringLiteral>,
     /// For `export * as ns from "module"` - the namespace identifier
     pub namespace_export: Option<Identifier>,
+    /// `export * from "module"`: re-export every named export of the source module
+    pub star_export: bool,
     pub default: bool,
     pub type_only: bool,
     pub span: Span,
